@@ -114,7 +114,7 @@ def run_tlc_mc(wdir, mc, constants, workers, timeout):
     cmd = ["tlc", "-workers", str(workers), "-metadir", md, "-cleanup", "-noGenerateSpecTE",
            "-config", cfg, os.path.join(SPEC, mc["module"] + ".tla")]
     t0 = time.time()
-    env = dict(os.environ, JAVA_TOOL_OPTIONS="-Xss64m")
+    env = dict(os.environ, JAVA_TOOL_OPTIONS="-Xss64m -XX:+UseParallelGC")
     with open(out, "w") as f:
         try:
             r = subprocess.run(cmd, stdout=f, stderr=subprocess.STDOUT, cwd=SPEC, timeout=timeout, env=env)
@@ -128,7 +128,10 @@ def run_tlc_mc(wdir, mc, constants, workers, timeout):
         for line in f:
             if line.startswith('<<"REPLAY", "'):
                 body = line.rstrip("\n")[len('<<"REPLAY", "'):-len('">>')]
-                g.write(body.replace('\\"', '"') + "\n")
+                body = body.replace('\\"', '"')
+                if mc.get("cfg"):
+                    body = '{"cfg":%s,"ops":%s}' % (json.dumps(mc["cfg"]), body)
+                g.write(body + "\n")
                 nrep += 1
                 continue
             m = re.match(r"(\d+) states generated, (\d+) distinct states found", line)
@@ -159,7 +162,7 @@ def run_tlc_trace(trace_module, trace_file, wdir, tag, timeout=1800):
     cfg = os.path.join(SPEC, trace_module + ".cfg")
     out = os.path.join(wdir, "trace_%s.out" % tag)
     env = dict(os.environ, TRACE=trace_file,
-               JAVA_TOOL_OPTIONS="-Xss1g -Xmx3g -Dtlc2.tool.queue.IStateQueue=StateDeque")
+               JAVA_TOOL_OPTIONS="-Xss1g -Xmx3g -XX:+UseSerialGC -Dtlc2.tool.queue.IStateQueue=StateDeque")
     cmd = ["tlc", "-workers", "1", "-metadir", md, "-cleanup", "-noGenerateSpecTE", "-config", cfg,
            os.path.join(SPEC, trace_module + ".tla")]
     with open(out, "w") as f:
@@ -252,25 +255,49 @@ def run_model(model, M, tier, seed, wdir, extra_behaviours=None):
     beh_all = os.path.join(wdir, "behaviours.ndjson")
     open(beh_all, "w").close()
     if extra_behaviours is None:
-        for mc in M.get("mc", []):
+        mcs = M.get("mc", [])
+        par = max(1, min(len(mcs), 4))
+        wk = max(2, NCPU // par)
+
+        def one(mc):
             constants = dict(mc["constants"])
             constants.update(mc.get(tier, {}))
-            r = run_tlc_mc(wdir, mc, constants, NCPU, T.get("tlc_timeout", 1500))
+            # E1 does not depend on /repo: reuse the result for an identical specification + constants
+            k1 = hashlib.sha256(json.dumps([spec_hash.hexdigest(), mc["name"], mc["module"], sorted(
+                (a, sorted(b) if isinstance(b, (set, frozenset)) else b) for a, b in constants.items()),
+                mc.get("invariants"), mc.get("cfg")], default=str).encode()).hexdigest()[:24]
+            c1 = os.path.join(WORK, "cache", "e1_" + k1)
+            if os.path.exists(c1 + ".json") and not os.environ.get("VERIF_NOCACHE"):
+                r = json.load(open(c1 + ".json"))
+                r["replay_file"] = c1 + ".beh"
+                r["reused"] = True
+                return mc, r
+            r = run_tlc_mc(wdir, mc, constants, wk, T.get("tlc_timeout", 1500))
+            r["reused"] = False
+            os.makedirs(os.path.dirname(c1), exist_ok=True)
+            shutil.move(r["replay_file"], c1 + ".beh")
+            r["replay_file"] = c1 + ".beh"
+            json.dump(r, open(c1 + ".json", "w"))
+            return mc, r
+
+        with cf.ThreadPoolExecutor(par) as ex:
+            e1 = list(ex.map(one, mcs))
+        for mc, r in e1:
             expect = mc.get("expect", "ok")
-            log("[%s] E1 %-12s %9d states %8d distinct depth %d  %.1fs  %s" % (
+            log("[%s] E1 %-28s %9d states %8d distinct depth %d  %.1fs%s  %s" % (
                 model, mc["name"], r["states"], r["distinct"], r["depth"], r["wall"],
+                " (reused: identical specification and constants)" if r["reused"] else "",
                 ("violates " + str(r["violated"])) if r["violated"] else "no monitor fails"))
             if expect == "ok" and r["violated"]:
                 raise ToolError("E1: model %s configuration %s violates %s (model or specification error; see %s)"
                                 % (model, mc["name"], r["violated"], wdir))
             if expect == "violation" and not r["violated"]:
                 raise ToolError("E1: configuration %s was expected to exhibit a violation (vacuity guard)" % mc["name"])
-            res["mc"].append({k: r[k] for k in ("name", "states", "distinct", "depth", "violated", "wall", "replay_lines")})
-            res["e1_wall"] += r["wall"]
+            res["mc"].append({k: r[k] for k in ("name", "states", "distinct", "depth", "violated", "wall", "replay_lines", "reused")})
+            res["e1_wall"] += 0 if r["reused"] else r["wall"]
             if r["replay_lines"]:
                 with open(beh_all, "a") as g:
                     g.write(open(r["replay_file"]).read())
-            os.remove(r["replay_file"])
         beh = os.path.join(wdir, "beh_sample.ndjson")
         res["behaviours_emitted"] = sum(1 for _ in open(beh_all))
         res["behaviours_replayed"] = sample_lines(beh_all, beh, T.get("sample"), rng)
